@@ -11,6 +11,7 @@ import Proofs.StepValid
 import Proofs.NoInternal
 import Proofs.MarkupSuccess
 import Proofs.MarkSuccess
+import Proofs.UnifyText
 namespace PM.C01
 open PM
 
@@ -573,5 +574,32 @@ example : ∃ doc', tinyS2.apply (.addMark 2 3 ⟨0, []⟩) (.elem 0 [] [] tinyK
   · simp [tinyKids, alignedAt, splitOk, isHigh, isLow]
   · simp [tinyKids, alignedAt]
 end Example
+
+
+/-! ## The text-stability conditions of the different properties, related (appended by the unification package)
+
+  Three conditions say "text children may be merged" in three strengths; each was introduced by a
+  different work package.  `TextStable` of this file is word for word `TextStableP` of
+  Proofs/StepValid.lean; `TextLoop` (Proofs/TokValid.lean) is what the mark-step success theorems need;
+  `FromDom.TextStable` (Proofs/PlacementValid.lean) is what the parser's `finish` theorem (C19) needs.
+
+      FromDom.TextStable S  ⟹  TextLoop S  ⟹  TextStableP S  ⟺  C01.TextStable S
+
+  so a schema that satisfies the hypothesis of C19's `placement_finish_valid` satisfies the hypotheses
+  of every theorem of this file.  Neither implication can be reversed (`text+`, `text?`). -/
+
+theorem textStable_iff_textStableP (S : Schema) : TextStable S ↔ TextStableP S := Iff.rfl
+
+theorem textStable_of_parser (S : Schema) (h : FromDom.TextStable S) : TextStable S := h.stableP
+
+theorem textLoop_of_parser (S : Schema) (h : FromDom.TextStable S) : TextLoop S := h.textLoop
+
+/-- `TextLoop` is strictly between the two: `text+` satisfies it but not the parser's condition … -/
+theorem textLoop_not_parser : ∃ S : Schema, TextLoop S ∧ ¬ FromDom.TextStable S :=
+  ⟨_, PM.textLoop_not_textStable⟩
+
+/-- … and `text?` satisfies `TextStable` (vacuously) but not `TextLoop` -/
+theorem textStable_not_textLoop : ∃ S : Schema, TextStable S ∧ ¬ TextLoop S :=
+  ⟨_, PM.textStableP_not_textLoop⟩
 
 end PM.C01
